@@ -478,6 +478,8 @@ struct Fill {
     foreign_offlink_prefix: bool,
     bcast2: bool,
     loop_var: bool,
+    /// the TCP listener went through SYN -> SYN-RECEIVED -> RST -> LISTEN before the packet arrives
+    aborted_prelude: bool,
 }
 
 impl Fill {
@@ -510,6 +512,7 @@ impl Fill {
             foreign_offlink_prefix: false,
             bcast2: false,
             loop_var: false,
+            aborted_prelude: false,
         }
     }
     fn draw(src: &mut Src) -> Fill {
@@ -584,6 +587,7 @@ impl Fill {
         f.loop_var = src.bool();
         // (appended last: saved tapes end before this draw and read 0 = none)
         f.dns_near_miss = src.weighted(&[2, 1, 1]) as u8;
+        f.aborted_prelude = src.weighted(&[2, 1]) == 1;
         f
     }
 }
@@ -925,6 +929,34 @@ fn build_world(c: &Coord, f: &Fill, a: &Addrs) -> World {
         let mut t = tcp::Socket::new(tcp::SocketBuffer::new(vec![0u8; 256]), tcp::SocketBuffer::new(vec![0u8; 256]));
         t.listen(ep).expect("listen");
         socks.tcp = Some(node.sockets.add(t));
+        // history: the listener has already seen a connection attempt that the peer gave up
+        // (SYN, then RST while in SYN-RECEIVED) and is listening again; what it is bound to must
+        // not have changed. Only where the SYN|ACK needs no neighbour discovery.
+        if f.aborted_prelude && med != Med::Ieee && (!eth || f.cached) {
+            let h = socks.tcp.unwrap();
+            let (ps, pd) = (a.peer, a.own1);
+            let isn = f.ack ^ 0x5a5a_0000;
+            let sp = if f.sport == 65535 { 65534 } else { f.sport + 1 };
+            let mut syn = Tcp::new(sp, f.p, isn, None, SYN, 1024);
+            syn.opts.push(TcpOpt::Mss(536));
+            let p1 = IpPkt::build(ps, pd, PROTO_TCP, 64, syn.encode(&ps, &pd));
+            node.inject(wrap_l2(eth, OWN_MAC, PEER_MAC, &p1));
+            node.poll(ms(NOW_MS), None);
+            if node.sockets.get_mut::<tcp::Socket>(h).state() == tcp::State::SynReceived {
+                let rst = Tcp::new(sp, f.p, isn.wrapping_add(1), None, RST, 0);
+                let p2 = IpPkt::build(ps, pd, PROTO_TCP, 64, rst.encode(&ps, &pd));
+                node.inject(wrap_l2(eth, OWN_MAC, PEER_MAC, &p2));
+                node.poll(ms(NOW_MS), None);
+            }
+            quiesce(&mut node);
+            if node.sockets.get_mut::<tcp::Socket>(h).state() != tcp::State::Listen {
+                // (not this property's business; C05/C17 judge the handshake) start from a fresh listener
+                let t = node.sockets.get_mut::<tcp::Socket>(h);
+                t.abort();
+                t.listen(ep).expect("listen again");
+                quiesce(&mut node);
+            }
+        }
         let mut u = udp::Socket::new(pbuf(4, 512, udp::PacketMetadata::EMPTY), pbuf(1, 64, udp::PacketMetadata::EMPTY));
         u.bind(ep).expect("udp bind");
         socks.udp = Some(node.sockets.add(u));
@@ -1450,6 +1482,9 @@ fn run_cell(c: &Coord, f: &Fill, ctx: &mut Ctx) -> Result<Vec<Fail>, Fail> {
     }
     if pkt.targets_dns {
         ctx.label("pkt:dns-response-to-query-port");
+    }
+    if f.aborted_prelude && c.bind != Bind::NoSockets && w.med != Med::Ieee && (w.med != Med::Eth || f.cached) {
+        ctx.label("history:listener-after-aborted-handshake");
     }
     if pkt.near_miss {
         ctx.label(if f.dns_near_miss == 1 { "pkt:dns-response-to-another-port" } else { "pkt:dns-response-with-another-txid" });
